@@ -1,62 +1,4 @@
+/- Library root.  All modules under SpiceEv/ are built through the `globs` entry of lakefile.toml;
+   see Driver.lean for the executable model and SpiceEv/Properties/Cxx.lean for the theorems. -/
 import SpiceEv.Py
 import SpiceEv.Wire
-import SpiceEv.Model.Curve
-import SpiceEv.Cmd.Curve
-import SpiceEv.Model.ScenarioRun
-import SpiceEv.Cmd.ScenarioRun
-import SpiceEv.Model.StrategyUtil
-import SpiceEv.Cmd.StrategyUtil
-import SpiceEv.Proofs.Basic
-import SpiceEv.Proofs.Curve
-import SpiceEv.Properties.C03
-import SpiceEv.Properties.C04
-import SpiceEv.Properties.C05
-import SpiceEv.Properties.C06
-import SpiceEv.Properties.C16
-import SpiceEv.Properties.C17
-import SpiceEv.Model.Strategies
-import SpiceEv.Proofs.Strategies
-import SpiceEv.Time
-import SpiceEv.Model.Util
-import SpiceEv.Cmd.Util
-import SpiceEv.Proofs.Util
-import SpiceEv.Properties.C15
-import SpiceEv.Properties.C09
-import SpiceEv.Properties.C10
-import SpiceEv.Model.Bisect
-import SpiceEv.Properties.C11
-import SpiceEv.Model.GenCsv
-import SpiceEv.Cmd.GenCsv
-import SpiceEv.Proofs.GenCsv
-import SpiceEv.Properties.C20
-import SpiceEv.Model.Battery
-import SpiceEv.Cmd.Battery
-import SpiceEv.Proofs.Battery
-import SpiceEv.Proofs.BatteryLoad
-import SpiceEv.Properties.C01
-import SpiceEv.Proofs.BatteryODE
-import SpiceEv.Properties.C02
-import SpiceEv.Model.ScheduleGen
-import SpiceEv.Cmd.ScheduleGen
-import SpiceEv.Proofs.ScheduleGen
-import SpiceEv.Proofs.ScheduleRead
-import SpiceEv.Properties.C13
-import SpiceEv.Model.Costs
-import SpiceEv.Cmd.Costs
-import SpiceEv.Proofs.Costs
-import SpiceEv.Proofs.CostsInvariance
-import SpiceEv.Properties.C12
-import SpiceEv.Model.GenEvent
-import SpiceEv.Model.GenStatistics
-import SpiceEv.Model.GenCsvEvents
-import SpiceEv.Model.GenSimbev
-import SpiceEv.Cmd.Gen
-import SpiceEv.Proofs.GenList
-import SpiceEv.Proofs.GenStatistics
-import SpiceEv.Proofs.GenCsvEvents
-import SpiceEv.Proofs.GenSimbev
-import SpiceEv.Properties.C19
-import SpiceEv.Cmd.Strategies
-import SpiceEv.Model.Distributed
-import SpiceEv.Cmd.Distributed
-import SpiceEv.Properties.C14
